@@ -5,7 +5,7 @@
    qb_log_ctl2 (lib/log.c).  [.. true ..] = the code with fixes/C13-*.patch applied; [.. false ..] = as found. *)
 From Coq Require Import List ZArith Bool Lia.
 Require Import Verif.gen.Consts_logfmt Verif.SerModel Verif.LogFmtModel Verif.LogFmtProofs Verif.LogFmtWitness.
-Require Import Verif.LogFmtText.
+Require Import Verif.LogFmtText Verif.SerLists Verif.LogMsgModel Verif.LogMsgProofs.
 Import ListNotations.
 Open Scope Z_scope.
 
@@ -114,3 +114,63 @@ Example C13_text_example :
   fres_text (target_format true [91;37;112;93;32;37;45;56;110;124;37;98] cs0 hello 512 false o0 (repeat 90 512))
   = line_spec [91;37;112;93;32;37;45;56;110;124;37;98] cs0 hello 512 false o0.
 Proof. exact spec_example. Qed.
+
+(* ---- qb_log_format_set: the text of the target format after the %P %N %H expansion ----
+   for ALL format strings, every limit 1 <= L <= the size of modified_format[], every pid / name / host text and prior
+   content of the buffer, inside [static_guard] (every '-' %P/%N/%H field wider than its text lies below the limit):
+   the buffer holds exactly  static_spec = the first L-1 characters of (literal text; %[-][width]P|N|H padded / chopped;
+   every other directive copied as it stands for the dynamic pass; a directive cut short by the end of the format gains
+   a blank), followed by a NUL.  "_partial": the same right-aligned-field deviation as in C13_text_partial. *)
+Theorem C13_format_set_text_partial : forall fmt L o garbage,
+  1 <= L < 4294967296 -> L <= zlen garbage ->
+  static_guard fmt L o = true ->
+  exists buf, format_static true fmt L o garbage = FDone buf /\ zlen buf = zlen garbage /\
+              takeZ (zlen (static_spec fmt L o)) buf = static_spec fmt L o /\
+              rd buf (zlen (static_spec fmt L o)) = 0.
+Proof. exact format_static_text. Qed.
+Print Assumptions C13_format_set_text_partial.
+
+Example C13_format_set_text_example :
+  static_guard [37;78;91;37;45;56;80;93;32;37;98;32;37;53;113;37] 512 o0 = true /\
+  static_spec [37;78;91;37;45;56;80;93;32;37;98;32;37;53;113;37] 512 o0
+  = [113;98;91;32;32;32;32;32;32;52;50;93;32;37;98;32;37;53;113;37;32].
+  (* "%N[%-8P] %b %5q%"  ->  "qb[      42] %b %5q% " *)
+Proof. vm_compute. split; reflexivity. Qed.
+
+(* ---- a whole log call (second sentence of the property): cs_format + qb_do_extended ----
+   [r] = the text vsnprintf would produce from the format and the arguments with unlimited room (the oracle);
+   for EVERY such text (empty, exactly at, beyond the limit, with trailing newline, with QB_XC anywhere), every limit
+   1 <= maxlen < 2^31 and every prior content of the line buffer of exactly maxlen bytes: *)
+(* cs_format leaves  (r cut to maxlen-1 characters, or r without its trailing newline when it fits)  and a NUL,
+   never touching a byte outside the buffer *)
+Theorem C13_cs_format_text : forall r maxlen garbage,
+  1 <= maxlen < 2147483648 -> zlen r < 2147483648 -> zlen garbage = maxlen ->
+  exists b, cs_format_m true r maxlen garbage = FDone b /\ zlen b = maxlen /\
+            takeZ (zlen (cs_format_spec r maxlen)) b = cs_format_spec r maxlen /\
+            rd b (zlen (cs_format_spec r maxlen)) = 0.
+Proof. exact cs_format_text. Qed.
+Print Assumptions C13_cs_format_text.
+
+(* qb_do_extended hands the logger the text up to the marker (with extended information wanted and present: marker as
+   '|' and the rest), skips a message that is only extended information for a target that does not want it, stays
+   inside the string and restores the buffer *)
+Theorem C13_do_extended_text : forall m rest extended, nonzero m ->
+  do_extended_m (m ++ 0 :: rest) extended = Some (do_extended_spec m extended, m ++ 0 :: rest).
+Proof. exact do_extended_text. Qed.
+
+Theorem C13_log_call_text : forall r maxlen extended garbage,
+  nonzero r -> 1 <= maxlen < 2147483648 -> zlen r < 2147483648 -> zlen garbage = maxlen ->
+  log_call true r maxlen extended garbage = Some (log_call_spec r maxlen extended).
+Proof. exact log_call_text. Qed.
+Print Assumptions C13_log_call_text.
+
+Example C13_asfound_cs_format_empty_refuted : cs_format_m false [] 512 (repeat 90 512) = FOob 2.
+Proof. exact asfound_cs_format_empty. Qed.
+Example C13_log_call_examples :
+  log_call true [] 512 true (repeat 90 512) = Some (Some []) /\
+  log_call true [104;105;10] 512 true (repeat 90 512) = Some (Some [104;105]) /\
+  log_call true [97;98;99;100;101;102] 4 true (repeat 90 4) = Some (Some [97;98;99]) /\
+  log_call true [97;7;98] 512 true (repeat 90 512) = Some (Some [97;124;98]) /\
+  log_call true [97;7;98] 512 false (repeat 90 512) = Some (Some [97]) /\
+  log_call true [7;98] 512 false (repeat 90 512) = Some None.
+Proof. exact fixed_cs_format_examples. Qed.
